@@ -3,9 +3,11 @@
 Cases are histories over a pool of n <= 6 real BaseComponent objects.  Every op is concrete
 (['reg', c, p], ['unreg', c], ['fire', x], ['tick', r, k], ['flush', x]); before executing an op the
 driver evaluates the property's preconditions on the real object graph and, when they do not hold,
-moves on cyclically to the next candidate for which they do (or skips the op).  The history that was
-actually executed is part of the observable, and it is that history (with the dispatch order of
-every flush as the schedule) that the Coq model KTree is run on.
+moves on cyclically to the next candidate for which they do (or skips the op).  A case may give components
+scripts: queues of operation lists that the component's handler performs (resolved the same way, at that
+moment) while it handles a probe / registered / unregistered / prepare_unregister event.  The history that
+was actually executed - with the dispatch order of every flush and what every handler did - is part of the
+observable, and it is that history that the Coq model KTree is run on.
 """
 import sys, os
 sys.path.insert(0, os.path.dirname(os.path.abspath(__file__)))
@@ -15,7 +17,7 @@ from common import Prop
 from circuits import BaseComponent, Event, handler
 
 NMAX = 6
-DRAIN_ROUNDS = 8
+DRAIN_ROUNDS = 16
 
 
 class probe(Event):
@@ -23,16 +25,21 @@ class probe(Event):
 
 
 def make_pool(n, sink):
-    class Node(BaseComponent):
-        def __init__(self, idx):
-            self.idx = idx
-            super().__init__()
+    """one class per component: its catch-all handler has priority 100 - index, so that the handlers of one
+    event run in ascending index order; after logging, the handler runs the component's script for the event"""
+    pool = []
+    for i in range(n):
+        class Node(BaseComponent):
+            def __init__(self, idx):
+                self.idx = idx
+                super().__init__()
 
-        @handler(channel='*', priority=100)
-        def _c07_log(self, event, *args, **kwargs):
-            sink(self.idx, event)
+            @handler(channel='*', priority=100 - i)
+            def _c07_log(self, event, *args, **kwargs):
+                sink(self.idx, event)
 
-    return [Node(i) for i in range(n)]
+        pool.append(Node(i))
+    return pool
 
 
 # ---------------------------------------------------------------- reading the real object graph
@@ -99,13 +106,24 @@ def evdesc(pool, e):
     return [9, 0, 0]
 
 
+KINDS = {'probe': 0, 'registered': 1, 'unregistered': 2, 'prepare_unregister': 3}      # events whose handlers may act
+
+
 class Driver:
-    def __init__(self, n):
+    def __init__(self, n, scripts=None):
         self.n = n
         self.cur = None          # entries of the flush round being recorded
         self.last = None
+        self.flushing = None     # index of the root whose flush is in progress
         self.pool = make_pool(n, self.sink)
         self.nprobe = 0
+        self.unsafe = False      # corpus witness of finding C07-register-flushing-root only
+        # scripts[str(component)][str(kind)] = queue of action lists: each time the component's handler sees an
+        # event of that kind it takes the next list and performs its register/unregister/fire operations
+        self.scripts = {}
+        for c, d in (scripts or {}).items():
+            for k, q in d.items():
+                self.scripts[(int(c), int(k))] = [list(map(list, al)) for al in q]
 
     def sink(self, idx, event):
         if self.cur is None:
@@ -113,8 +131,21 @@ class Driver:
             return
         if self.last is not event:
             self.last = event
-            self.cur.append([evdesc(self.pool, event), [], parents(self.pool)])
-        self.cur[-1][1].append(idx)
+            self.cur.append([evdesc(self.pool, event), [], parents(self.pool), []])
+        entry = self.cur[-1]
+        entry[1].append(idx)
+        q = self.scripts.get((idx, KINDS.get(event.name, -1)))
+        if q:
+            done = []
+            try:
+                for a in q.pop(0):
+                    c = self.resolve(list(a), handler=True)
+                    if c is not None:
+                        done.append(c)
+                        self.execute(c)
+            finally:
+                if done:
+                    entry[3].append([idx, done])
 
     # preconditions of the property's quantifier, evaluated on the real object graph
     def reg_ok(self, c, p):
@@ -125,14 +156,16 @@ class Driver:
             return False
         return not any(P is y for y in subtree(self.pool, C))
 
-    def resolve(self, op):
+    def resolve(self, op, handler=False):
         n, k = self.n, op[0]
         if k == 'reg':
             c0, p0 = op[1] % n, op[2] % n
             for d in range(n * n):
                 j = (c0 * n + p0 + d) % (n * n)
                 c, p = divmod(j, n)
-                if self.reg_ok(c, p):
+                # a handler cannot register the root whose flush is in progress (registerChild asserts that the
+                # queue it drains is not being flushed)
+                if self.reg_ok(c, p) and not (handler and c == self.flushing and not self.unsafe):
                     return ['reg', c, p]
             return None
         if k == 'unreg':
@@ -155,15 +188,17 @@ class Driver:
             return ['flush', op[1] % n]
         raise ValueError(k)
 
-    def rounds(self, f, k):
+    def rounds(self, f, k, root):
         out = []
         for _ in range(k):
             self.cur, self.last = [], None
+            self.flushing = _idx(self.pool, root.root)
             try:
                 f()
             finally:
                 out.append(self.cur)
                 self.cur = None
+                self.flushing = None
         return out
 
     def execute(self, op):
@@ -181,9 +216,9 @@ class Driver:
             P[op[1]].fire(probe(self.nprobe))
             return []
         if k == 'tick':
-            return self.rounds(P[op[1]].tick, op[2])
+            return self.rounds(P[op[1]].tick, op[2], P[op[1]])
         if k == 'flush':
-            return self.rounds(P[op[1]].flush, 1)
+            return self.rounds(P[op[1]].flush, 1, P[op[1]])
 
     def run(self, ops, drain=True):
         self.stray = []
@@ -230,8 +265,21 @@ def ev_lit(d):
     return 'Other'
 
 
+def act_lit(a):
+    if a[0] == 'reg':
+        return 'AReg %d %d' % (a[1], a[2])
+    if a[0] == 'unreg':
+        return 'AUnreg %d' % a[1]
+    return 'AFire %d %d' % (a[1], a[2])
+
+
+def item_lit(e):
+    hs = '; '.join('(%d, [%s])' % (x, '; '.join(act_lit(a) for a in acts)) for x, acts in e[3])
+    return '(%s, [%s])' % (ev_lit(e[0]), hs)
+
+
 def sched_lit(rnd):
-    return '[%s]' % '; '.join(ev_lit(e[0]) for e in rnd)
+    return '[%s]' % '; '.join(item_lit(e) for e in rnd)
 
 
 def op_lit(op, lg):
@@ -256,7 +304,8 @@ class C07(Prop):
     imports = ['Model.KTree', 'Model.KTreeObs']
     quick_n = 240
     thorough_n = 3000
-    rule = ('histories of 4..40 ops over a pool of 2..6 real BaseComponent objects: register(c, p) with c detached, not '
+    rule = ('histories of 4..40 ops over a pool of 2..6 real BaseComponent objects (55% with handlers that act while handling '
+            'probe / registered / unregistered / prepare_unregister events): register(c, p) with c detached, not '
             'pending and p outside c\'s subtree, unregister of attached components (also already pending ones, nested '
             'subtrees, several before any tick), fire on any component, 1..3 ticks of any current root, flush() on any '
             'component, then ticks of all busy roots until every queue is empty; three styles: random, settled (ticks after '
@@ -266,12 +315,14 @@ class C07(Prop):
     trusted_base = ['hand-written model Model/KTree.v tied to /repo by this correspondence run (structure of the object '
                     'graph after every op, receivers of every dispatched event)',
                     'python oracle in harness/c07.py (reads parent, root, components, unregister_pending, len() only)']
-    assumptions = ['single thread, no component is running; handlers only log (no handler registers, unregisters or fires)',
-                   'order in which one flush dispatches its batch is taken from the implementation run as a schedule; '
-                   'theorems hold for every permutation of the batch',
-                   '_updateRoot recursion is modelled with fuel = pool size + 1; theorems are stated for runs that end in Ok '
-                   '(no OutOfFuel, no Crash, valid schedules); that such runs are the ones the real code produces is '
-                   'checked by the correspondence on every case, not proved']
+    assumptions = ['single thread, no component is running; handlers log and may register / unregister / fire (never the '
+                   'root whose flush is in progress: open finding C07-register-flushing-root); no handler raises, '
+                   'cancels or stops events, none is a generator',
+                   'order in which one flush dispatches its batch and what the handlers of each dispatched event did are '
+                   'taken from the implementation run as the schedule; theorems hold for every permutation of the batch '
+                   'and every choice of handler operations that satisfy the preconditions',
+                   'Event.cause / Event.effects counters are modelled by closure membership counts (same zero crossings); '
+                   'tied by the correspondence only']
 
     def __init__(self):
         self._obs = {}
@@ -340,19 +391,51 @@ class C07(Prop):
             styles[st] = styles.get(st, 0) + 1
             for o in ops:
                 kinds[o[0]] = kinds.get(o[0], 0) + 1
-            cases.append({'n': size, 'ops': ops})
+            case = {'n': size, 'ops': ops}
+            if rng.random() < 0.55:
+                # handlers that act: some components register / unregister / fire while they handle a probe,
+                # registered or unregistered event (each listed reaction is used once, in order)
+                scripts = {}
+                for c in rng.sample(range(size), rng.randint(1, min(3, size))):
+                    d = {}
+                    for k in rng.sample([0, 1, 2, 3, 3], rng.randint(1, 4)):
+                        q = []
+                        for _ in range(rng.randint(1, 3)):
+                            al = []
+                            for _ in range(rng.randint(1, 2)):
+                                r = rng.random()
+                                if r < 0.4:
+                                    al.append(['reg', rng.randrange(size), rng.randrange(size)])
+                                elif r < 0.75:
+                                    al.append(['unreg', rng.randrange(size)])
+                                else:
+                                    al.append(['fire', rng.randrange(size)])
+                            q.append(al)
+                        d[str(k)] = q
+                    scripts[str(c)] = d
+                case['scripts'] = scripts
+                styles['with_acting_handlers'] = styles.get('with_acting_handlers', 0) + 1
+            cases.append(case)
         self.stats = {'op_kinds_generated': kinds, 'history_styles': styles}
         return cases
 
     # ---- implementation driver
     def impl(self, case):
-        d = Driver(int(case['n']))
-        obs = d.run(case['ops'], drain=case.get('drain', True))
+        d = Driver(int(case['n']), case.get('scripts'))
+        if case.get('unsafe_flushing_root'):
+            import contextlib, io
+            d.unsafe = True
+            with contextlib.redirect_stderr(io.StringIO()):      # the fallback exception handler prints a traceback
+                obs = d.run(case['ops'], drain=case.get('drain', True))
+        else:
+            obs = d.run(case['ops'], drain=case.get('drain', True))
         self._obs[common.canon(case)] = obs
         return obs
 
     # ---- model
     def model_term(self, case):
+        if case.get('unsafe_flushing_root'):
+            return None          # outside the model's preconditions (C07_ex_flushing_root)
         obs = self._obs.get(common.canon(case))
         if obs is None:
             obs = self.safe_impl(case)
@@ -402,6 +485,7 @@ class C07(Prop):
         pend = [x[3] for x in obs['init']]
         regs, comps, ann_r, ann_u = {}, {}, {}, {}
         former = [set() for _ in range(n)]     # members of the trees c left by a completed unregistration
+        requested = [False] * n                # unregister() called on an attached component since the last snapshot
         loc, done = {}, {}                     # probe id -> root whose queue holds it ; -> times dispatched
 
         def observe(newpar, newpend, regop, where):
@@ -411,7 +495,8 @@ class C07(Prop):
                 if newpar[c] != par[c]:
                     if regop is not None and c == regop[0] and par[c] == c and newpar[c] == regop[1]:
                         continue
-                    if par[c] != c and newpar[c] == c and pend[c]:
+                    if par[c] != c and newpar[c] == c and (pend[c] or requested[c]):
+                        requested[c] = False
                         # completed unregistration of c from the tree it was in
                         t = top_of(par, c)
                         sub = set(x for x in range(n) if c in chain(par, x))
@@ -426,6 +511,7 @@ class C07(Prop):
             par = list(newpar)
             if newpend is not None:
                 pend = list(newpend)
+                requested[:] = [False] * n
             return None
 
         def chain(par_, x):
@@ -452,9 +538,11 @@ class C07(Prop):
                         loc[e] = newtop
             elif k == 'fire':
                 loc[op[2]] = top_of(par, op[1])
+            elif k == 'unreg' and par[op[1]] != op[1]:
+                requested[op[1]] = True
             disp = top_of(par, op[1]) if k in ('tick', 'flush') else None
             for rnd in lg:
-                for (d, recv, parnow) in rnd:
+                for (d, recv, parnow, hacts) in rnd:
                     w = observe(parnow, None, None, where + ' (during the flush)')
                     if w:
                         return w
@@ -483,6 +571,26 @@ class C07(Prop):
                         if top_of(par, x) != disp and disp in former[x]:
                             return ('%s: component %d, whose unregistration has completed, received event %r dispatched '
                                     'by %d, the root of a tree it has left' % (where, x, d, disp))
+                    # operations performed by the handlers of this event, in the order they were performed
+                    for (hx, acts) in hacts:
+                        if hx not in recv or d[0] not in (0, 1, 2, 3):
+                            return '%s: harness error: %d acted on %r without receiving it' % (where, hx, d)
+                        for a in acts:
+                            if a[0] == 'reg':
+                                c, p = a[1], a[2]
+                                if par[c] != c or c == p or c in chain(par, p) or (c == disp and not case.get('unsafe_flushing_root')):
+                                    return '%s: harness error: handler register(%d,%d) violates the preconditions' % (where, c, p)
+                                regs[(c, p)] = regs.get((c, p), 0) + 1
+                                nt = top_of(par, p)
+                                for e in loc:
+                                    if loc[e] == c and not done.get(e):
+                                        loc[e] = nt
+                                par[c] = p
+                            elif a[0] == 'unreg':
+                                if par[a[1]] != a[1]:
+                                    requested[a[1]] = True
+                            elif a[0] == 'fire':
+                                loc[a[2]] = top_of(par, a[1])
             w = observe([x[0] for x in s], [x[3] for x in s], regop, where)
             if w:
                 return w
@@ -510,6 +618,24 @@ class C07(Prop):
                 if comps.get(key, 0) != ann_u.get(key, 0):
                     return '%d completed unregistrations of %d from %d but %d unregistered events' % (
                         comps.get(key, 0), key[0], key[1], ann_u.get(key, 0))
+        return None
+
+    def finding_class(self, case, obs, what):
+        # open finding C07-register-flushing-root: only the dedicated witness (a handler registers, elsewhere, the
+        # root whose flush is in progress while that batch still holds events) and only if that is what happened
+        if not case.get('unsafe_flushing_root') or not isinstance(obs, dict) or 'logs' not in obs:
+            return None
+        for op, lg in zip(obs['hist'], obs['logs']):
+            if op[0] not in ('tick', 'flush'):
+                continue
+            for rnd in lg:
+                for k, e in enumerate(rnd):
+                    for (_, acts) in e[3]:
+                        for a in acts:
+                            if a[0] == 'reg' and e[2][a[1]] == a[1] and a[1] in e[1]:
+                                # registered component was a root that received (= dispatched) this event
+                                if top_of(e[2], e[1][0]) == a[1]:
+                                    return 'C07-register-flushing-root'
         return None
 
     def nontrivial(self, case, obs):
